@@ -31,6 +31,43 @@ type internalHandler struct {
 	filter         any // Predicate function for filtering events
 	mu             sync.Mutex
 	executed       uint32 // For once handlers, atomically tracks if executed
+
+	// Ticket queue for async sequential handlers: tickets are handed out on
+	// the publishing goroutine and served in that order, so events are
+	// processed in the order they were published
+	seqMu      sync.Mutex
+	seqCond    *sync.Cond
+	seqNext    uint64 // next ticket to hand out
+	seqServing uint64 // ticket currently allowed to run
+}
+
+// seqTicket reserves the next place in the handler's processing order.
+func (h *internalHandler) seqTicket() uint64 {
+	h.seqMu.Lock()
+	defer h.seqMu.Unlock()
+	if h.seqCond == nil {
+		h.seqCond = sync.NewCond(&h.seqMu)
+	}
+	ticket := h.seqNext
+	h.seqNext++
+	return ticket
+}
+
+// seqWait blocks until every earlier ticket has been released.
+func (h *internalHandler) seqWait(ticket uint64) {
+	h.seqMu.Lock()
+	for h.seqServing != ticket {
+		h.seqCond.Wait()
+	}
+	h.seqMu.Unlock()
+}
+
+// seqDone releases the current ticket and admits the next one.
+func (h *internalHandler) seqDone() {
+	h.seqMu.Lock()
+	h.seqServing++
+	h.seqMu.Unlock()
+	h.seqCond.Broadcast()
 }
 
 // PanicHandler is called when a handler panics
@@ -355,11 +392,23 @@ func PublishContext[T any](bus *EventBus, ctx context.Context, event T) {
 		}
 
 		if h.async {
+			// Sequential async handlers take their place in line here, on the
+			// publishing goroutine, because the goroutines started below are
+			// scheduled in no particular order
+			var ticket uint64
+			if h.sequential {
+				ticket = h.seqTicket()
+			}
 			wg.Add(1)
 			bus.wg.Add(1)
 			go func(handler *internalHandler) {
 				defer wg.Done()
 				defer bus.wg.Done()
+
+				if handler.sequential {
+					handler.seqWait(ticket)
+					defer handler.seqDone()
+				}
 
 				// Check context before executing
 				select {
